@@ -228,7 +228,7 @@ fn run_writers_exhaustive(ctx: &Ctx, max_len: usize) {
         for h in &st.nt {
             ctx.nontrivial(*h);
         }
-        if !st.nt.is_empty() && sampled < 3 && input.len() >= 5 && hash_of(input) % 53 == 0 {
+        if !st.nt.is_empty() && sampled < 3 && input.len() >= 5 && (ctx.samples_len() < 2 || hash_of(input) % 53 == 0) {
             sampled += 1;
             ctx.sample(20, || json!({"mapped_write_input": String::from_utf8_lossy(input), "chunkings": 1u32 << (input.len() - 1), "finalisers": ["drop", "unwrap"]}));
         }
